@@ -34,7 +34,10 @@ H = ['class', 'lambda', 'None', 'a', '0', '1+', '-', '.', '..', "'", '"',
 BOUNDS = {'quick': dict(atoms=2, containers=3),
           'thorough': dict(atoms=3, containers=3, big_b=True)}
 RIGHTS = ['x', '%(t)s', '%(missing)s', '%(missing.dotted-name)s',
-          '%(t)s%(also missing)s']
+          '%(t)s%(also missing)s',
+          # a dotted name whose first part IS a target key (holding a scalar,
+          # a list or a dict): still one flat, missing key
+          '%(t.k)s']
 TARGETS = [{}, {'t': 'x'}, {'t': 1}, {'t': 1.5}, {'t': True}, {'t': None},
            {'t': [1]}, {'t': {'k': 1}}]
 CREDS = [
